@@ -143,12 +143,37 @@ pub fn step_budget(n_bytes: usize) -> u64 {
     (2_000 * n * n).min(4_000_000_000).max(50_000_000)
 }
 
+/// `VERIF_TRACE_INPUTS=<file>` (set by the supervisor for solo confirmations): every observed call
+/// appends its input and configuration before it starts, so that the last line of the file is the
+/// call that did not return when the process is killed
+fn trace_path() -> Option<&'static std::path::PathBuf> {
+    static PATH: std::sync::OnceLock<Option<std::path::PathBuf>> = std::sync::OnceLock::new();
+    PATH.get_or_init(|| std::env::var_os("VERIF_TRACE_INPUTS").map(std::path::PathBuf::from)).as_ref()
+}
+fn trace_input(cfg: &Cfg, input: &str, cursors: &[u32]) {
+    let Some(path) = trace_path() else { return };
+    use std::io::Write;
+    if let Ok(mut f) = std::fs::OpenOptions::new().create(true).append(true).open(path) {
+        let _ = writeln!(f, "{}", serde_json::json!({"input": input, "cfg": cfg, "cursors": cursors}));
+    }
+}
+/// the observed call returned (or panicked): whatever hangs after this line is not the formatter
+fn trace_returned() {
+    let Some(path) = trace_path() else { return };
+    use std::io::Write;
+    if let Ok(mut f) = std::fs::OpenOptions::new().create(true).append(true).open(path) {
+        let _ = writeln!(f, "{{\"returned\":true}}");
+    }
+}
+
 pub fn format_obs(cfg: &Cfg, input: &str, cursors: &[u32], step_limit: u64) -> Obs {
+    trace_input(cfg, input, cursors);
     let f = formatter(cfg);
     let mut cur: Vec<Cursor> = cursors.iter().map(|c| Cursor(*c)).collect();
     LOGS.with(|l| l.borrow_mut().clear());
     verif::begin(step_limit, true);
     let r = catch_unwind(AssertUnwindSafe(|| f.format(input, FileOptions::new().with_cursors(&mut cur))));
+    trace_returned();
     let (steps, events) = verif::end();
     let logs = LOGS.with(|l| std::mem::take(&mut *l.borrow_mut()));
     let out = match r {
